@@ -330,6 +330,15 @@ def Pred.occAt : Pred → Int → OccAns × Pred
   | .traj p, t => let (a, p') := p.occAt t; (a, .traj p')
   | .setb v t0 len, t => (if inRange t0 len t then .setb v t else .none, .setb v t0 len)
 
+/-- An entry of `DynamicObstacle.history`: the initial state (version `base`) that `update_initial_state` replaced, and the
+    motions (versions of the `translate_rotate` calls on the obstacle / scenario) applied to it since, in order. -/
+structure HTok where
+  base : Nat
+  moves : List Nat
+  deriving DecidableEq, Repr, Inhabited
+
+def HTok.move (v : Nat) (h : HTok) : HTok := { h with moves := h.moves ++ [v] }
+
 structure Obs where
   dynamic : Bool
   shape : Nat                -- obstacle_shape (immutable after construction)
@@ -340,8 +349,8 @@ structure Obs where
   sig : Nat                  -- initial_signal_state / initial_center_lanelet_ids / initial_shape_lanelet_ids (tokens)
   cen : Nat
   shp : Nat
-  hist : List Nat            -- history, signal_history, center_lanelet_ids_history, shape_lanelet_ids_history
-  sigHist : List Nat
+  hist : List HTok           -- history (world-frame states: moved along with the obstacle)
+  sigHist : List Nat         -- signal_history, center_lanelet_ids_history, shape_lanelet_ids_history (not spatial)
   cenHist : List Nat
   shpHist : List Nat
   deriving DecidableEq, Repr, Inhabited
@@ -370,7 +379,7 @@ inductive ObsAns where
   | err (e : Err)
   | occ (a : OccAns)
   | st (a : StAns)
-  | hist (h s c p : List Nat)
+  | hist (h : List HTok) (s c p : List Nat)
   deriving DecidableEq, Repr, Inhabited
 
 /-- Python `l[-m:]` for `m > 0`. -/
@@ -416,7 +425,8 @@ def Obs.step (o : Obs) : ObsOp → ObsAns × Obs
     (.unit, { o with initOcc := (act .initialOccupancy .obsSetShape).applySimple o.freshInitOcc o.initOcc })
   | .translateRotate v =>                -- obstacle.py:401-417 (static), :644-663 (dynamic); scenario.py:1297-1314
     let pred' := if o.dynamic then o.pred.map (fun p => p.move .obsTranslateRotate v) else o.pred  -- delegates to the prediction
-    let o' := { o with init := v, pred := pred' }
+    -- obstacle.py:646-667: the dynamic obstacle moves its state history too (fix 6df6dd6); the other history lists are not spatial
+    let o' := { o with init := v, pred := pred', hist := if o.dynamic then o.hist.map (HTok.move v) else o.hist }
     (.unit, { o' with initOcc := (act .initialOccupancy .obsTranslateRotate).applySimple o'.freshInitOcc o.initOcc })
   | .setPrediction p =>                  -- obstacle.py:561-568, 714-725
     if !o.dynamic then (.err .attr, o) else
@@ -425,7 +435,7 @@ def Obs.step (o : Obs) : ObsOp → ObsAns × Obs
   | .updateInitialState v t0 sig cen shp m =>   -- obstacle.py:665-712
     if !o.dynamic then (.err .attr, o) else
     if m ≤ 0 then (.err .assert, o) else
-    let h := o.hist ++ [o.init]
+    let h := o.hist ++ [⟨o.init, []⟩]
     let hs := o.sigHist ++ [o.sig]
     let hc := o.cenHist ++ [o.cen]
     let hp := o.shpHist ++ [o.shp]
